@@ -49,8 +49,9 @@ func genC20Pure(t *simrt.Tape) c20Pure {
 	}
 	// a subset of the pattern kinds in a random order (0 kind-int, 1 sum type, 2 equal, 3 regex, 4 kind-string,
 	// 5 a regex rule that does not compile: it accepts nothing, every time it is consulted)
-	pool := []int{0, 1, 2, 3, 4, 5}
-	k := 1 + t.Choose(6)
+	// 6 kind-slice (accepts every slice, a nil one included: its kind is Slice)
+	pool := []int{0, 1, 2, 3, 4, 5, 6}
+	k := 1 + t.Choose(7)
 	for i := 0; i < k; i++ {
 		j := t.Choose(len(pool))
 		p.Patterns = append(p.Patterns, pool[j])
@@ -334,25 +335,26 @@ func (sc *c20Scenario) runPure(s *simrt.Sim, h *Hist) {
 		name string
 		v    interface{}
 		// which pattern kinds accept it (0 kind-int, 1 sum type, 2 equal(42), 3 regex ^ab+$, 4 kind-string); -1 = not asserted
-		acc [6]int
+		acc [7]int
 	}
 	st := c20T{A: 1}
 	var nilPtr *c20T
 	probes := []probe{
-		{"int 42", 42, [6]int{1, 0, 1, 0, 0}},
-		{"int 7", 7, [6]int{1, 0, 0, 0, 0}},
-		{"int64 42", int64(42), [6]int{0, 0, 0, 0, 0}},
-		{"string abb", "abb", [6]int{0, 0, 0, 1, 1}},
-		{"string xab", "xab", [6]int{0, 0, 0, 0, 1}},
-		{"string 42", "42", [6]int{0, 0, 0, 0, 1}},
-		{"nil", nil, [6]int{0, 1, 0, 0, 0}},
-		{"typed nil pointer", nilPtr, [6]int{0, -1, 0, 0, 0}},
-		{"typed nil *CompData (what NewCompData returns for mismatching arguments)", fpgo.NewCompData(fpgo.DefProduct(reflect.Int), "no"), [6]int{0, -1, 0, 0, 0}},
-		{"struct", st, [6]int{0, 0, 0, 0, 0}},
-		{"pointer to struct", &st, [6]int{0, 0, 0, 0, 0}},
-		{"slice", []int{1, 2}, [6]int{0, 0, 0, 0, 0}},
-		{"CompData(string,int)", fpgo.NewCompData(sum, "a", 1), [6]int{0, 1, 0, 0, 0}},
-		{"CompData(int) of another type", fpgo.NewCompData(fpgo.DefProduct(reflect.Int), 5), [6]int{0, 0, 0, 0, 0}},
+		{"int 42", 42, [7]int{1, 0, 1, 0, 0}},
+		{"int 7", 7, [7]int{1, 0, 0, 0, 0}},
+		{"int64 42", int64(42), [7]int{0, 0, 0, 0, 0}},
+		{"string abb", "abb", [7]int{0, 0, 0, 1, 1}},
+		{"string xab", "xab", [7]int{0, 0, 0, 0, 1}},
+		{"string 42", "42", [7]int{0, 0, 0, 0, 1}},
+		{"nil", nil, [7]int{0, 1, 0, 0, 0}},
+		{"typed nil pointer", nilPtr, [7]int{0, -1, 0, 0, 0}},
+		{"typed nil *CompData (what NewCompData returns for mismatching arguments)", fpgo.NewCompData(fpgo.DefProduct(reflect.Int), "no"), [7]int{0, -1, 0, 0, 0}},
+		{"struct", st, [7]int{0, 0, 0, 0, 0}},
+		{"pointer to struct", &st, [7]int{0, 0, 0, 0, 0}},
+		{"slice", []int{1, 2}, [7]int{0, 0, 0, 0, 0, 0, 1}},
+		{"nil slice", []int(nil), [7]int{0, 0, 0, 0, 0, 0, 1}},
+		{"CompData(string,int)", fpgo.NewCompData(sum, "a", 1), [7]int{0, 1, 0, 0, 0}},
+		{"CompData(int) of another type", fpgo.NewCompData(fpgo.DefProduct(reflect.Int), 5), [7]int{0, 0, 0, 0, 0}},
 	}
 	h.Do("main", "pattern-matching", p.Patterns, func() (interface{}, error) {
 		// ONE PatternMatching object per pattern list is reused for every probe (as a long-lived matcher would be);
@@ -388,6 +390,8 @@ func (sc *c20Scenario) runPure(s *simrt.Sim, h *Hist) {
 					return fpgo.InCaseOfKind(reflect.String, eff)
 				case 5:
 					return fpgo.InCaseOfRegex("a(b", eff)
+				case 6:
+					return fpgo.InCaseOfKind(reflect.Slice, eff)
 				}
 				return fpgo.Otherwise(eff)
 			}
@@ -487,6 +491,9 @@ func (sc *c20Scenario) runPure(s *simrt.Sim, h *Hist) {
 			{"sum(sum(int,string),bool,float64) <- (1.5)", nested, []interface{}{1.5}, true},
 			{"sum(sum(int,string),bool,float64) <- (uint8 1)", nested, []interface{}{uint8(1)}, false},
 			{"sum(sum(int,string),bool,float64) <- (1,2)", nested, []interface{}{1, 2}, false},
+			{"product(slice) <- (nil slice)", fpgo.DefProduct(reflect.Slice), []interface{}{[]int(nil)}, true},
+			{"product(string,map) <- (k, nil map)", fpgo.DefProduct(reflect.String, reflect.Map), []interface{}{"k", map[string]int(nil)}, true},
+			{"nil type <- (nil slice)", fpgo.NilType, []interface{}{[]int(nil)}, false},
 			{"nil type <- (nil)", fpgo.NilType, []interface{}{nil}, true},
 			{"nil type <- (0)", fpgo.NilType, []interface{}{0}, false},
 		}
